@@ -83,6 +83,11 @@ func (l *l1) step(ops []kit.Op) (*stepInfo, *mismatch) {
 			info.Model = pre
 			return info, nil
 		}
+		if pre.NegativeZero {
+			info.Excluded = "domain:negative-zero"
+			info.Model = pre
+			return info, nil
+		}
 		if pre.LookupAfterDup {
 			info.Excluded = "index-overwrite:lookup-after-transient-duplicate"
 			info.Model = pre
@@ -199,8 +204,106 @@ func (l *l1) step(ops []kit.Op) (*stepInfo, *mismatch) {
 	if d := kit.DiffStates(model.Post, post); len(d) > 0 {
 		return info, mm("state.differs", "database after commit differs from RFC 7047 model:\n%s", strings.Join(d, "\n"))
 	}
+	if m := l.checkUpdate(info, post); m != nil {
+		return info, m
+	}
 	l.Ref = model.Post
 	return info, nil
+}
+
+// checkUpdate verifies the database.Update produced for a committed transaction (what
+// monitors are notified with): applied to the state before the transaction with the
+// harness' own update2 rules it must give the state after it, and it must mention
+// nothing that did not change.
+func (l *l1) checkUpdate(info *stepInfo, post kit.State) *mismatch {
+	got := l.Ref.Clone()
+	up := info.Impl.Update
+	seen := map[string]bool{}
+	for _, table := range up.GetUpdatedTables() {
+		t := l.W.S.Table(table)
+		if t == nil {
+			return mm("update.unknown-table", "update mentions table %s", table)
+		}
+		if got[table] == nil {
+			got[table] = kit.Rows{}
+		}
+		var firstErr *mismatch
+		_ = up.ForEachRowUpdate(table, func(uuid string, ru ovsdb.RowUpdate2) error {
+			if firstErr != nil {
+				return nil
+			}
+			if seen[table+"/"+uuid] {
+				firstErr = mm("update.duplicate-row", "row %s of %s reported twice", uuid, table)
+				return nil
+			}
+			seen[table+"/"+uuid] = true
+			old, exists := l.Ref[table][uuid]
+			kinds := 0
+			for _, p := range []*ovsdb.Row{ru.Insert, ru.Modify, ru.Delete} {
+				if p != nil {
+					kinds++
+				}
+			}
+			if ru.Initial != nil || kinds != 1 {
+				firstErr = mm("update.malformed", "row %s of %s: exactly one of insert/modify/delete expected: %+v", uuid, table, ru)
+				return nil
+			}
+			switch {
+			case ru.Insert != nil:
+				if exists {
+					firstErr = mm("update.insert-of-existing", "row %s of %s reported as insert but existed before", uuid, table)
+					return nil
+				}
+				row, err := l.W.RowFromOvs(table, *ru.Insert)
+				if err != nil {
+					firstErr = mm("update.malformed", "%v", err)
+					return nil
+				}
+				delete(row, "_uuid")
+				got[table][uuid] = t.FillDefaults(row)
+			case ru.Delete != nil:
+				if !exists {
+					firstErr = mm("update.delete-of-missing", "row %s of %s reported as delete but did not exist", uuid, table)
+					return nil
+				}
+				delete(got[table], uuid)
+			default:
+				if !exists {
+					firstErr = mm("update.modify-of-missing", "row %s of %s reported as modify but did not exist", uuid, table)
+					return nil
+				}
+				diff, err := l.W.RowFromOvs(table, *ru.Modify)
+				if err != nil {
+					firstErr = mm("update.malformed", "%v", err)
+					return nil
+				}
+				if len(diff) == 0 {
+					firstErr = mm("update.empty-modify", "row %s of %s reported with an empty modification", uuid, table)
+					return nil
+				}
+				nr, err := t.ApplyUpdate2(old, diff)
+				if err != nil {
+					firstErr = mm("update.malformed", "%v", err)
+					return nil
+				}
+				for name := range diff {
+					if name != "_uuid" && kit.EqVal(nr[name], old[name]) {
+						firstErr = mm("update.unchanged-column", "row %s of %s: column %s reported as modified but did not change (%s)", uuid, table, name, old[name].Key())
+						return nil
+					}
+				}
+				got[table][uuid] = nr
+			}
+			return nil
+		})
+		if firstErr != nil {
+			return firstErr
+		}
+	}
+	if d := kit.DiffStates(post, got); len(d) > 0 {
+		return mm("update.not-the-difference", "state before the transaction + reported update differs from the state after it:\n%s", strings.Join(d, "\n"))
+	}
+	return nil
 }
 
 func compareSelect(w *kit.World, op kit.Op, got []ovsdb.Row, want []kit.Row) *mismatch {
